@@ -314,7 +314,7 @@ def concrete_run(mod, cfg, inputs):
 
 
 # ----------------------------------------------------------------------------- worker
-_PROFILED = set()
+_PROFILED = {}
 
 
 def process_config(args):
@@ -330,8 +330,8 @@ def process_config(args):
     prof = None
     funcs = set()
     pk = cfg.get("pk", cfg["h"] + ":" + str(cfg.get("op", "")))
-    if pk not in _PROFILED:
-        _PROFILED.add(pk)
+    if _PROFILED.get(pk, 0) < 4:
+        _PROFILED[pk] = _PROFILED.get(pk, 0) + 1
 
         def prof(frame, event, arg):
             if event == "call":
